@@ -87,7 +87,9 @@ def get_q(data, input_index, axis, axis_index, interval):
     """
     p0 = 0
     p1 = 1
-    var = verif.field.Quantile(interval.lower)
+    # Use the finite end of the interval as the quantile level (-b below* gives a lower end of -inf)
+    level = interval.lower if not np.isinf(interval.lower) else interval.upper
+    var = verif.field.Quantile(level)
     [obs, q] = data.get_scores([verif.field.Obs(), var], input_index, axis, axis_index)
 
     return [obs, q]
